@@ -40,6 +40,30 @@ func condUnder(cond ssa.Value, st stateAssume) (val bool, ok bool) {
 	if fr, isF := asLoadedField(c); isF && fr.Field == "inlined" {
 		return res(st.inlined)
 	}
+	// a boolean (parameter or local) that the function stores into an `inlined` field: it *is* the inlined state of
+	// the object being built (a private constructor `newEmpty...(id, extraData, inlined)`)
+	if b, isB := c.Type().Underlying().(*types.Basic); isB && b.Kind() == types.Bool {
+		var fn *ssa.Function
+		switch x := c.(type) {
+		case *ssa.Parameter:
+			fn = x.Parent()
+		case ssa.Instruction:
+			fn = x.Parent()
+		}
+		if fn != nil {
+			init := false
+			eachInstr(fn, func(in ssa.Instruction) {
+				if stv, ok := in.(*ssa.Store); ok {
+					if fr, ok := asFieldAddr(stv.Addr); ok && fr.Field == "inlined" && canon(stv.Val) == c {
+						init = true
+					}
+				}
+			})
+			if init {
+				return res(st.inlined)
+			}
+		}
+	}
 	if bo, isB := c.(*ssa.BinOp); isB && (bo.Op == token.NEQ || bo.Op == token.EQL) {
 		for _, pr := range [][2]ssa.Value{{bo.X, bo.Y}, {bo.Y, bo.X}} {
 			if fr, isF := asLoadedField(pr[0]); isF && fr.Field == "extraData" && isNilConst(pr[1]) {
